@@ -90,6 +90,7 @@ func checkC04(c *Ctx) {
 	checkResponseDispatch(c, ev)
 	checkResponseGo(c, gen)
 	checkMediaFamilies(c, "C04.R3.media", gen)
+	checkDefaultMedia(c, gen)
 	checkDiscriminatorAgreement(c, "C04.R3.discriminator", gen)
 }
 
@@ -699,5 +700,94 @@ func checkInnerArraysKept(c *Ctx, rule string, ev *tmpl.Evaluator) {
 	}
 	if len(conds) == 0 {
 		c.Ok(rule, "sliceparambinder › inner arrays are bound unconditionally", l.Tree.File, "no length test around the recursion")
+	}
+}
+
+
+// checkDefaultMedia: the runtime serves an operation that has no media type of its own with
+// application/json; the serializer lists the generated API registers (makeConsumes /
+// makeProduces) must therefore contain the JSON media type whenever some selected operation is
+// in that situation — the list of the media types required by the spec goes through a function
+// that looks at every operation with the accessor of the same family and adds runtime.JSONMime.
+func checkDefaultMedia(c *Ctx, gen *packages.Package) {
+	rule := "C04.R3.default-media"
+	c.Rule(rule, "makeConsumes / makeProduces complete the required media types with the runtime's default (application/json) when an operation has none, using the accessor of their own family", 2)
+	info := gen.TypesInfo
+	for _, side := range []struct{ fn, required, accessor string }{{"appGenerator.makeConsumes", "RequiredConsumes", "ConsumesFor"}, {"appGenerator.makeProduces", "RequiredProduces", "ProducesFor"}} {
+		fd := load.FuncDecl(gen, side.fn)
+		if fd == nil {
+			c.Anchor(rule, "generator."+side.fn, "not found")
+			continue
+		}
+		ok, why := false, "makeSerializers is handed the required media types as they are"
+		ast.Inspect(fd.Body, func(n ast.Node) bool {
+			call, isCall := n.(*ast.CallExpr)
+			if !isCall || len(call.Args) < 1 {
+				return true
+			}
+			if fn := goan.Callee(info, call); fn == nil || fn.Name() != "makeSerializers" {
+				return true
+			}
+			inner, isCall := ast.Unparen(call.Args[0]).(*ast.CallExpr)
+			if !isCall {
+				return true
+			}
+			helper := goan.Callee(info, inner)
+			if helper == nil || helper.Pkg() != gen.Types {
+				return true
+			}
+			// arguments: <…>.Required<X>() and the method value <…>.<X>For
+			hasReq, hasAcc := false, false
+			for _, a := range inner.Args {
+				if ac, isC := ast.Unparen(a).(*ast.CallExpr); isC && goan.LastSel(ac.Fun) == side.required {
+					hasReq = true
+				}
+				if se, isS := ast.Unparen(a).(*ast.SelectorExpr); isS && se.Sel.Name == side.accessor {
+					hasAcc = true
+				}
+			}
+			if !hasReq || !hasAcc {
+				why = fmt.Sprintf("%s is not called with %s() and the %s accessor", helper.Name(), side.required, side.accessor)
+				return true
+			}
+			// the helper ranges over the operations, calls its accessor parameter on each, and can add runtime.JSONMime
+			var hd *ast.FuncDecl
+			for _, d := range load.AllFuncs(gen) {
+				if info.Defs[d.Name] == helper {
+					hd = d
+				}
+			}
+			if hd == nil {
+				return true
+			}
+			ranges, callsParam, addsJSON := false, false, false
+			params := map[types.Object]bool{}
+			for _, f := range hd.Type.Params.List {
+				for _, nm := range f.Names {
+					params[info.Defs[nm]] = true
+				}
+			}
+			ast.Inspect(hd.Body, func(m ast.Node) bool {
+				switch x := m.(type) {
+				case *ast.RangeStmt:
+					if goan.LastSel(x.X) == "Operations" {
+						ranges = true
+					}
+				case *ast.CallExpr:
+					if id, isId := x.Fun.(*ast.Ident); isId && params[info.Uses[id]] {
+						callsParam = true
+					}
+					if goan.IsIdent(x.Fun, "append") && len(x.Args) == 2 && goan.ExprString(x.Args[1]) == "runtime.JSONMime" {
+						addsJSON = true
+					}
+				}
+				return true
+			})
+			ok = ranges && callsParam && addsJSON
+			why = fmt.Sprintf("%s: ranges over the operations=%v, applies the accessor to each=%v, can add runtime.JSONMime=%v", helper.Name(), ranges, callsParam, addsJSON)
+			return true
+		})
+		c.Check(ok, rule, "generator."+side.fn+" › default media type of the runtime", c.posOf(gen, fd.Pos()), why,
+			why+": when the spec has no global list and only some operations declare media types, the others are served with application/json by the runtime but the generated API registers no JSON serializer (500: no producer / 415)")
 	}
 }
